@@ -235,3 +235,16 @@ import runner as _runner, tsx as _tsx
 
 def run(ctx):
     return _tsx.combined(ctx, lambda c: _runner.correspondence("C16", c, _sys.modules[__name__]), "C16")
+
+
+# --- CMS verification ops (harness/cms; theorems Relic.Props.C02.cms_accept_implies and corollaries): a signer info whose
+# attribute list is stored in one order and signed in another, or whose content-type attribute contradicts the content,
+# must be refused whichever position it has among the signer infos
+_run_c16_tsx = run
+
+
+def run(ctx):
+    own, none = composite.split_replay(ctx, ["cms"])
+    cov, f, k = ({"evaluations": 0, "distinct_nontrivial": 0}, [], []) if none else _run_c16_tsx(own)
+    return composite.second(ctx, "C16", "C16CM", ["cms"], cov, f, k,
+                            "Relic.Props.C02.cms_accept_implies / cms_contenttype_bound (model Relic.Cms vs lib/pkcs7 Verify)")
